@@ -282,7 +282,10 @@ def build(prog, ntags=0, stream_kwargs=None, sink_factory=None):
             s = U[0].pluck(list(nd["lits"]) if nd["b1"] else nd["lits"][0])
         elif k == "collect":
             # (b1: the caller supplies the container -- same semantics, another construction path)
-            s = U[0].collect(cache=__import__("collections").deque()) if nd.get("b1") else U[0].collect()
+            if nd.get("m"):
+                s = U[0].collect(cache=__import__("collections").deque(maxlen=nd["m"]))     # a bounded container of the caller's
+            else:
+                s = U[0].collect(cache=__import__("collections").deque()) if nd.get("b1") else U[0].collect()
         elif k == "union":
             s = U[0].union(*U[1:])
         elif k == "zip":
